@@ -34,8 +34,8 @@ TEXT = {
     "C01": "invariant by induction (slot conservation + phase + registry invariant) => live workers and num_running+num_cancelled <= size in every reachable state, unbounded pool never full, is_full at capacity; the converse idle clause is a monitor",
     "C02": "slot conservation in every reachable state; accounting free+granted+running+cancelled=size, with the ghost hypothesis lost=false discharged for every history without gather_and_close (concurrent flushes included)",
     "C03": "registry and callback life-cycle invariants for every history (one registry per id, callbacks at most once / in order / at the right moment); exactly-once and completeness with lost=false, discharged for histories without gather_and_close",
-    "C04": "loop accounting of the apply/start spawner for every n and pool state (created+skipped+remaining conserved; done means all)",
-    "C05": "books of the per-call semaphore for every history => never more than num_concurrent tasks of a call; loop accounting of the map consumer (in order, lazy, one element in hand at most; partial: iterator makes no pool calls); work conservation is a monitor",
+    "C04": "request accounting invariant for every history: created+skipped+remaining = num, the tasks of a request are exactly the ones it created (never more than num); loop accounting of the apply/start spawner for every n and pool state (done means all)",
+    "C05": "two-sided books of the per-call semaphore for every history (equality while the consumer lives, no lost wake-up) => never more than num_concurrent tasks of a call, and work conservation: a live consumer waiting on its own semaphore with no wake-up on its way means all num_concurrent slots are held by tasks of the call; request accounting for every history (in order, lazy, one element in hand at most); the premise 'loop idle => no wake-up on its way' stays with the monitor",
     "C06": "decision logic stated outright: all-or-nothing with full state equality, classification, exact frame and delivery",
     "C07": "what cancel_group/cancel_all do (frame, forgotten name) and what a spawner does at its next step for each placement of the cancellation",
     "C08": "step-level theorems of the stages of gather_and_close (collecting gather waits for the last child, closing step, until_closed); whole-history waiting is a monitor",
